@@ -259,7 +259,16 @@ static void memcmp_case(uint64_t aoff, SrcKind sk, uint64_t soff, i128 n, bool t
   int got = 0, got_u = 0;
   bool ab = mon::aborts([&] {
     // the result is delivered as a tainted_int_hint: both of its unwrapping calls must give the same int
-    if (sk == SRC_SBX) { auto h = rlbox::memcmp(*SB, a, Wd::tptr<char>(*SB, soff), nn); got = h.unverified_safe_because("monitor"); got_u = h.UNSAFE_unverified(); }
+    // every other request on another instance passes the tainted source as a pointer CELL of that instance (a tainted_volatile<char*>&): memcmp
+    // takes its operands by forwarding reference, so this spelling reaches it as it is
+    static uint64_t spelling = 0;
+    bool as_cell = (spelling++ & 1) != 0 && soff <= 0xffffffffull;
+    if (false) {
+    } else if (sk == SRC_OTHER_TAINTED && as_cell) {
+      Wd::wr<typename Cfg::P>(*SB2, 48, static_cast<typename Cfg::P>(soff));
+      auto h = rlbox::memcmp(*SB, a, *Wd::tptr<char*>(*SB2, 48), nn); got = h.unverified_safe_because("monitor"); got_u = h.UNSAFE_unverified(); mon::hit("memcmp-source-passed-as-pointer-cell");
+    }
+    else if (sk == SRC_SBX) { auto h = rlbox::memcmp(*SB, a, Wd::tptr<char>(*SB, soff), nn); got = h.unverified_safe_because("monitor"); got_u = h.UNSAFE_unverified(); }
     else if (sk == SRC_OTHER_TAINTED) { auto h = rlbox::memcmp(*SB, a, Wd::tptr<char>(*SB2, soff), nn); got = h.unverified_safe_because("monitor"); got_u = h.UNSAFE_unverified(); }
     else { auto h = rlbox::memcmp(*SB, a, srcp, nn); got = h.unverified_safe_because("monitor"); got_u = h.UNSAFE_unverified(); }
   });
